@@ -188,7 +188,8 @@ ob("C06", "K4.emptydoc", {"c0": R(0, 0), "c1": R(0, 0), "c2": R(0, 0)}, T=60, tw
 
 
 # K5: Literal => pattern accepting exactly the members (z3 regex query per member set) ------------------------
-MEMBER_SETS = [["a"], ["np", "tf"], ["tf", "np"], ["mean", "sum", "none"], ["A", "a"], ["ab", "abc", "b"], ["x", "y", "z", "w"]]
+MEMBER_SETS = [["a"], ["np", "tf"], ["tf", "np"], ["mean", "sum", "none"], ["A", "a"], ["ab", "abc", "b"], ["x", "y", "z", "w"],
+               ["v1", "v2"], ["read_only", "read_write"], ["utf-8", "latin-1"], ["1", "2"], ["a b", "c"]]
 
 
 def _re_of_pattern(z3, pat):
@@ -262,3 +263,53 @@ def k5():
                     "diag": "Literal members %r came back as %r" % (members, bt)}
     return {"verdict": "confirmed", "queries": q, "unsat": unsat, "solver_s": time.time() - t0,
             "witness": {"members": MEMBER_SETS[1]}}
+
+
+# K6: the parse side of Literal <-> pattern with SYMBOLIC members (finite alphabet: str.format realises them) -------------------
+MALPHA = "aZ1_- "
+
+
+def _mch(i):
+    c = MALPHA[0]
+    for k in range(1, len(MALPHA)):
+        if i == k:
+            c = MALPHA[k]
+    return c
+
+
+@ob("C06", "K6.pattern_to_literal", {"i0": R(0, len(MALPHA) - 1), "i1": R(0, len(MALPHA) - 1), "i2": R(0, len(MALPHA) - 1), "req": BOOL}, T=200, funcs=[PARSE, EMIT],
+    bound="members m1 = 2 characters and m2 = 1 character over %r (solver-enumerated): emit Literal[m1, m2] then parse the property back" % MALPHA)
+def k6(i0, i1, i2, req):
+    import ast as _ast
+
+    from cdd.json_schema.utils.emit_utils import param2json_schema_property
+    from cdd.json_schema.utils.parse_utils import json_schema_property_to_param
+
+    m1, m2 = _mch(i0) + _mch(i1), _mch(i2)
+    if m1 == m2:
+        return ""
+    typ = "Literal[%r, %r]" % (m1, m2)
+    if not req:
+        typ = "Optional[%s]" % typ
+    required = []
+    try:
+        _, prop = param2json_schema_property(("a", {"typ": typ, "doc": "d"}), required)
+    except Exception as e:
+        return "emitter raised %s: %s" % (type(e).__name__, e)
+    if prop.get("pattern") != "|".join(sorted((m1, m2))):
+        return "pattern %r is not the sorted alternation of the members" % (prop.get("pattern"),)
+    _, back = json_schema_property_to_param(("a", dict(prop)), frozenset(required))
+    bt = back.get("typ", "")
+    inner = bt[len("Optional["):-1] if bt.startswith("Optional[") else bt
+    if (not req) != bt.startswith("Optional["):
+        return "Optional-ness changed: %r -> %r" % (typ, bt)
+    try:
+        sl = _ast.parse(inner, mode="eval").body.slice if inner.startswith("Literal[") else None
+        got = None if sl is None else sorted(e.value for e in (sl.elts if isinstance(sl, _ast.Tuple) else [sl]))
+    except Exception:
+        got = None
+    if got != sorted((m1, m2)):
+        return "Literal members %r came back as %r" % ((m1, m2), bt)
+    if "pattern" in back:
+        return "pattern key left over after the round trip"
+    return ""
